@@ -39,6 +39,7 @@ impl Property for C05 {
         match case {
             Case::SelfTest(n) => selftest::run(*n),
             Case::Gen(g) => check::run_gen(g, ctx.replay),
+            Case::Text(t) => check::run_text(t),
         }
     }
     fn rule() -> String {
